@@ -24,6 +24,7 @@ import (
 
 // Sink receives the value of an expression; the parameter type checks its kind (reflect.Call panics otherwise).
 type Sink struct {
+	Strs map[int64]string // receivers of string built-ins reached through a variable path
 	Zero int64
 	I    map[int64]int64
 	R    map[int64]float64
@@ -32,14 +33,37 @@ type Sink struct {
 }
 
 func newSink() *Sink {
-	return &Sink{I: map[int64]int64{}, R: map[int64]float64{}, B: map[int64]bool{}, S: map[int64]string{}}
+	return &Sink{Strs: sinkStrs, I: map[int64]int64{}, R: map[int64]float64{}, B: map[int64]bool{}, S: map[int64]string{}}
 }
 func (s *Sink) PutI(k, v int64)         { s.I[k] = v }
 func (s *Sink) PutR(k int64, v float64) { s.R[k] = v }
 func (s *Sink) PutB(k int64, v bool)    { s.B[k] = v }
 func (s *Sink) PutS(k int64, v string)  { s.S[k] = v }
 
+// fact methods whose result depends on the order of their arguments (fixed, variadic, mixed kinds)
+func (s *Sink) Sub2(a, b int64) int64 { return a - b }
+func (s *Sink) Weighted(xs ...int64) int64 {
+	var t int64
+	for i, x := range xs {
+		t += int64(i+1) * x
+	}
+	return t
+}
+func (s *Sink) Cat(parts ...string) string { return strings.Join(parts, "") }
+func (s *Sink) Mixed(a int64, str string, b bool) int64 {
+	r := a*100 + int64(len(str))*10
+	if b {
+		r++
+	}
+	return r
+}
+
+// receivers of the current batch (read-only during a run)
+var sinkStrs = map[int64]string{}
+
 type tval struct {
+	Cp  []int       `json:"cp"`
+	B   bool        `json:"b"`
 	T   string      `json:"t"`
 	N   int64       `json:"n"`
 	D   int64       `json:"d"`
@@ -77,6 +101,9 @@ type litRec struct {
 }
 
 type exprCase struct {
+	Fn       string   `json:"fn"`
+	Recv     []int    `json:"recv"`
+	Args     []tval   `json:"args"`
 	Fam      string   `json:"fam"`
 	Toks     []*enode `json:"toks"`
 	Tree     *enode   `json:"tree"`
@@ -152,6 +179,64 @@ func flat(toks []*enode, style int) string {
 		}
 	}
 	return b.String()
+}
+
+func cpString(cp []int) string {
+	b := make([]byte, len(cp))
+	for i, c := range cp {
+		b[i] = byte(c)
+	}
+	return string(b)
+}
+
+func dyadicText(n, d int64) string {
+	f := float64(n) / float64(d)
+	s := strconv.FormatFloat(f, 'f', -1, 64)
+	if !strings.Contains(s, ".") {
+		s += ".0"
+	}
+	return s
+}
+
+func argText(a tval, style int) string {
+	switch a.T {
+	case "s":
+		if style%2 == 0 {
+			return strconv.Quote(cpString(a.Cp))
+		}
+		return "'" + cpString(a.Cp) + "'"
+	case "i":
+		return strconv.FormatInt(a.N, 10)
+	case "b":
+		return strconv.FormatBool(a.B)
+	case "r":
+		return dyadicText(a.N, a.D)
+	}
+	panic("argument kind " + a.T)
+}
+
+// builtinText prints a built-in call; string receivers alternate between a constant and a map entry of the fact.
+func builtinText(c *exprCase, key int64, style int) string {
+	args := make([]string, len(c.Args))
+	for i, a := range c.Args {
+		args[i] = argText(a, style+i)
+	}
+	list := strings.Join(args, ","+sep(style))
+	switch c.Fn {
+	case "Abs", "Floor", "Ceil", "Round", "Max", "Min":
+		return c.Fn + "(" + list + ")"
+	case "Sub2", "Weighted", "Cat", "Mixed":
+		return "S." + c.Fn + "(" + list + ")"
+	}
+	recv := strconv.Quote(cpString(c.Recv))
+	if style%2 == 1 {
+		sinkStrs[key] = cpString(c.Recv)
+		recv = fmt.Sprintf("S.Strs[%d]", key)
+	}
+	if c.Fn == "SplitLen" {
+		return recv + ".Split(" + list + ").Len()"
+	}
+	return recv + "." + c.Fn + "(" + list + ")"
 }
 
 const hexd = "0123456789abcdef"
@@ -352,10 +437,18 @@ func cmdExprReplay(args []string) {
 					got, ok = strconv.FormatFloat(v, 'g', -1, 64), has && v == litFloat(j.want)
 				case "b":
 					v, has := s.B[j.key]
-					got, ok = fmt.Sprint(v), has && v == j.want.V.(bool)
+					wantB := j.want.B
+					if j.c.Fam != "builtin" {
+						wantB = j.want.V.(bool)
+					}
+					got, ok = fmt.Sprint(v), has && v == wantB
 				case "s":
 					v, has := s.S[j.key]
-					got, ok = v, has && v == j.want.S
+					wantS := j.want.S
+					if j.c.Fam == "builtin" {
+						wantS = cpString(j.want.Cp)
+					}
+					got, ok = v, has && v == wantS
 				case "err":
 					got, ok = "a value", false
 				}
@@ -403,6 +496,12 @@ func cmdExprReplay(args []string) {
 				put = "PutI"
 			}
 			add("literal", litText(c.Lit, n))
+		case "builtin":
+			text := builtinText(c, key+1, n)
+			if c.Want.T == "i" {
+				text = "(" + text + " + 0)" // Len, Index, Count, Compare yield a Go int: the sum is an int64 for the typed sink
+			}
+			add("builtin", text)
 		}
 		if len(jobs) >= *batch {
 			flush(n / *batch)
